@@ -398,3 +398,34 @@ def loop_consumes_whole_iterable(repo: Repo, module: str, cls, method: str, iter
                + ("has no early exit: every element is visited, in order" if ok else
                   "is left early at line(s) " + ", ".join(str(e.lineno) for e in early)
                   + " - the remaining elements are never replayed"), loop.lineno)]
+
+
+def yields_checked_for_terminal(repo: Repo, module: str, cls, method: str, test_suffix: str):
+    """every `yield x` of the (async) generator lies in a `for x in <batch>` loop whose body, after the yield, tests
+    `<...test_suffix>(x)` on that same element and returns: the stream ends right after the first terminal event,
+    whatever position it has in a batch"""
+    fi = _method(repo, module, cls, method)
+    par = parents(fi.node)
+    name = f"{module}.{cls}.{method}"
+    ys = [n for n in ast.walk(fi.node) if isinstance(n, ast.Yield)]
+    bad = []
+    for y in ys:
+        stmt = par.get(y)  # Expr statement holding the yield
+        loop = par.get(stmt)
+        ok = (isinstance(stmt, ast.Expr) and isinstance(loop, (ast.For, ast.AsyncFor)) and stmt in loop.body
+              and isinstance(loop.target, ast.Name) and isinstance(y.value, ast.Name) and y.value.id == loop.target.id)
+        if ok:
+            after = loop.body[loop.body.index(stmt) + 1:]
+            ok = any(
+                isinstance(s, ast.If) and isinstance(s.test, ast.Call) and ast.unparse(s.test.func).endswith(test_suffix)
+                and len(s.test.args) == 1 and isinstance(s.test.args[0], ast.Name) and s.test.args[0].id == loop.target.id
+                and any(isinstance(b, ast.Return) for b in s.body)
+                for s in after)
+        if not ok:
+            bad.append(y.lineno)
+    good = bool(ys) and not bad
+    return [ob(f"{name}/terminal-test-per-yield:{test_suffix}", good,
+               f"{cls}.{method}: " + ("every yielded event is tested with " + test_suffix + "() and the generator returns on "
+                                      "the first terminal one" if good else
+                                      (f"yield at line(s) {bad} is not followed, in its loop body, by `if ...{test_suffix}"
+                                       f"(<that event>): return`" if ys else "no yield found")), fi.lineno)]
